@@ -107,6 +107,7 @@ func newCodecX(l *Loaded) (*codecX, error) {
 	if p9 == nil {
 		return nil, fmt.Errorf("package p9 not loaded")
 	}
+	primLoaded = l
 	x := &codecX{l: l, info: p9.TypesInfo, bufType: l.namedType("p9", "buffer"),
 		writes: map[*types.Func]bufPrim{}, reads: map[*types.Func]bufPrim{}}
 	if x.bufType == nil {
